@@ -1,3 +1,5 @@
 open BinNums
 
 val filtered_ranges : (coq_N * coq_N) list
+
+val xml_prologue : coq_N list
